@@ -380,6 +380,8 @@ class RandS(ConcS):
         self.log = {}
 
     def int(self, name, lo=None, hi=None):
+        if name in self.log:
+            return self.log[name]
         r = self.rng
         lo_ = -4 if lo is None else lo
         hi_ = (self.size * 2) if hi is None else hi
